@@ -71,3 +71,19 @@ func VerifPrevNextTrace(root *html.Node, pageURL *nurl.URL, findNext bool) ([]Ve
 	}
 	return out, result
 }
+
+// VerifTextTerms runs addNonLinkTextIfValid for one text on a fresh finder whose current group
+// already holds one link (number 1, the given URL), and returns its answer and the groups.
+func VerifTextTerms(text string, firstURL string) (bool, *info.MonotonicPageInfoGroups) {
+	pnf := NewPageNumberFinder(nil, nil, nil)
+	pnf.adjacentNumberGroups.AddGroup()
+	pnf.adjacentNumberGroups.AddPageInfo(&info.PageInfo{PageNumber: 1, URL: firstURL})
+	added := pnf.addNonLinkTextIfValid(text)
+	return added, pnf.adjacentNumberGroups
+}
+
+// VerifLinkTextToNumber is linkTextToNumber.
+func VerifLinkTextToNumber(text string) (int, bool) {
+	n, err := NewPageNumberFinder(nil, nil, nil).linkTextToNumber(text)
+	return n, err == nil
+}
